@@ -7,6 +7,7 @@
 #include <cstdint>
 #include <cstddef>
 #include <map>
+#include <set>
 #include <string>
 #include <vector>
 
@@ -120,7 +121,8 @@ struct ExecImage {
 
 // ------------------------------------------------------------- child scripts
 struct Step {
-  enum K : uint8_t { WRITE, READ, READ_EOF, SLEEP, CLOSE, EXIT, RAISE, ECHO } k = SLEEP;
+  // SPAWN: leave a descendant behind that keeps the standard descriptors in bit mask `fd` (and nothing else) open for `n` ms
+  enum K : uint8_t { WRITE, READ, READ_EOF, SLEEP, CLOSE, EXIT, RAISE, ECHO, SPAWN } k = SLEEP;
   int fd = 1;
   int64_t n = 0;      // bytes / ms / code / signal
   int64_t chunk = 0;  // write chunk size
@@ -161,6 +163,7 @@ struct Proc {
   uint64_t in_off = 0;         // stdin bytes consumed
   uint64_t out_off[3] = { 0, 0, 0 };
   bool in_eof = false, in_bad = false;
+  bool in_gone = false;        // the script read from a stdin it had closed itself ("end-of-file" without the pipe's end)
   std::vector<SigRec> sigs;
   int handle = -1;             // harness handle that forked it
   int start_op = -1;
@@ -272,6 +275,9 @@ struct World {
   unsigned pid_reuse = 1;    // 0 never, 1 squatter, 2 recycle
   unsigned reoccupy_num = 0; // probability (per 100) of re-occupying a descriptor number closed by the library
   unsigned zombie_gap = 1;   // 0 immediate, 1 schedulable
+  int64_t clock_step_at_ms = -1;  // virtual time at which the wall clock (CLOCK_REALTIME) is stepped; -1: never
+  int64_t clock_step_ms = 0;      // size of the step (signed); the monotonic clock and all timeouts are unaffected
+  unsigned core_dumps = 0;   // 1: deaths by a core-type signal carry the core-dump flag (0x80) in the wait status
   unsigned stick_pct = 50;   // probability (percent) that the task that ran last keeps running at a switch point
 };
 
@@ -288,6 +294,10 @@ struct Kernel {
   std::vector<Rec> log;
   std::vector<VNode> vfs;
   std::vector<Proc *> procs;     // all ever created, by uid
+  std::vector<ChildSpec *> dyn_specs;  // scripts of descendants (owned)
+  uint64_t n_descendants = 0;
+  uint64_t n_stepped_reads = 0;
+  std::set<int> natural_emfile_ops;  // ops during which the descriptor table really was full
   std::map<int, Proc *> by_pid;  // current pid table
   std::vector<Pipe *> pipes;
   std::vector<OFD *> ofds;
